@@ -12,10 +12,6 @@ Open Scope string_scope.
 Open Scope list_scope.
 Open Scope Z_scope.
 
-(* the Segment object the property expects for entry p of the abstract image *)
-Definition seg_of (s : image_spec) (p : phdr_spec) : segm :=
-  {| g_hdr := exp_phdr s p; g_kind := spec_segment_kind (p_tyname s p) |}.
-
 Lemma nth_seg_inv s j p : nth_seg s j = Some p ->
   0 <= j < n_segments s /\ nth_error (i_segments s) (Z.to_nat j) = Some p.
 Proof.
